@@ -316,6 +316,9 @@ func (j *jimg) rows(s *Schema, nkeys int) map[int]Row {
 				row.W = w
 			}
 		}
+		if zt, has := m["z_txt"]; has && s.Zoo && fmt.Sprint(zt) != s.ZTxt(k) {
+			row.W = -2 // the TEXT column of the image is not this row's text
+		}
 		if u1, has := m["u1"]; has {
 			if u, ok := u1.(int64); ok {
 				row.U = int(u - 7)
